@@ -3,8 +3,8 @@ import os
 from gosym.check import Task
 from . import gen_msgs
 
-ALLOW = 'bufio,io,encoding/binary,errors,bytes'
-INITS = 'io,errors,github.com/bluenviron/gomavlib/v3/pkg/message'
+ALLOW = 'bufio,io,encoding/binary,errors,bytes,unicode/utf8'
+INITS = 'io,errors,unicode/utf8,github.com/bluenviron/gomavlib/v3/pkg/message'
 
 
 def prepare(tier, work, want):
